@@ -402,3 +402,9 @@ _POOL = [None]
 
 def _pool():
     return None  # obligations already run in parallel worker processes (daemonic workers cannot fork again)
+
+
+def bounded(ctx):
+    """pandas containers (label alignment) are outside the array model of the executor: bounded family 'container independence'"""
+    from ..rt import containers
+    return containers.run(['series'])
